@@ -419,6 +419,8 @@ Definition of_res (r : option pval) : sx := of_opt of_pval (option_map obs r).
 (** Cases:
     [(tri ow t a b c)] -> typing of the three operands, [a.b], [b.c], [(a.b).c], [a.(b.c)],
                           and [a.b] under the pinned rule;
+    [(pool ow t (v...))] -> typing of every operand, every [a.b], every [(a.b).c]
+                          (equal to [a.(b.c)] by [merge_assoc]), every [a.b] under the pinned rule;
     [(fp t v)]         -> [from_partial], [complete];
     [(fold ow t (v...))] -> [merge_all] from the empty partial of [t]. *)
 Definition run_c14 (x : sx) : sx :=
@@ -434,6 +436,17 @@ Definition run_c14 (x : sx) : sx :=
              of_res (obind bc (fun r => merge ow a r));
              of_res (merge_pinned ow a b)]
       | _, _, _, _, _ => sx_bad "tri"
+      end
+  | L [A "pool"; ow; t; vs] =>
+      match sx_bool ow, sx_ty t, sx_map sx_pval vs with
+      | Some ow, Some t, Some vs =>
+          let pairs := map (fun a => map (fun b => merge ow a b) vs) vs in
+          L [of_list (fun v => of_bool (has_tyb t v)) vs;
+             of_list (of_list of_res) pairs;
+             of_list (of_list (fun ab => of_list (fun c => of_res (obind ab (fun r => merge ow r c))) vs))
+               pairs;
+             of_list (fun a => of_list (fun b => of_res (merge_pinned ow a b)) vs) vs]
+      | _, _, _ => sx_bad "pool"
       end
   | L [A "fp"; t; v] =>
       match sx_ty t, sx_pval v with
